@@ -59,6 +59,10 @@ AddField(t, v, rep) == /\ Len(fields) < MaxFields
                        /\ fields' = Append(fields, <<IF rep /\ fields # <<>> THEN fields[1][1] ELSE TagName(Len(fields) + 1, t), t, v>>)
                        /\ (rep => fields # <<>> /\ fields[1][2] = t)
                        /\ UNCHANGED cgpos
+(* the same two-letter tag used with another TYPE (xs:i and xs:Z): two different fields, both must survive *)
+AddSameName(t, v) == /\ Len(fields) < MaxFields /\ fields # <<>> /\ t # fields[1][2] /\ fields[1][1] \notin {"tp", "ds"}
+                     /\ v \in {"a:b", "-5", "1e-05", "P", "00", "i,1,2"}
+                     /\ fields' = Append(fields, <<fields[1][1], t, v>>) /\ UNCHANGED cgpos
 AddDs == /\ Len(fields) < MaxFields /\ ~(\E k \in 1..Len(fields) : IsDs(fields[k]))      \* the (documented) dropped tag, at any position
          /\ fields' = Append(fields, <<"ds", "Z", "*+a3-cc:1">>) /\ UNCHANGED cgpos
 (* the alignment-type tag the parser looks at (tp:A:P/p = primary, anything else = not primary), at any position *)
@@ -68,6 +72,7 @@ AddTp(v) == /\ Len(fields) < MaxFields /\ ~(\E k \in 1..Len(fields) : fields[k][
 SetCg(k) == cgpos = 0 /\ k \in 1..(Len(fields) + 1) /\ cgpos' = k /\ UNCHANGED fields
 RNext == (\E t \in Types, rep \in BOOLEAN : \E v \in ValsOf(t, IF fields = <<>> THEN ZLen ELSE 1) \cup {"a:b"} : (t = "Z" \/ v # "a:b") /\ AddField(t, v, rep))
          \/ (\E k \in 1..(MaxFields + 1) : SetCg(k)) \/ AddDs \/ (\E v \in TpVals : AddTp(v))
+         \/ (\E t \in Types : \E v \in ValsOf(t, 1) \cup {"a:b"} : (t = "Z" \/ v # "a:b") /\ AddSameName(t, v))
 RSpec == RInit /\ [][RNext]_rvars
 (* design sanity: identity re-serialisation is accepted, dropping or truncating is not *)
 IdentityAccepted == TagsVerdict(fields, fields, FALSE) = (IF \E k \in 1..Len(fields) : IsDs(fields[k]) THEN "ds_not_dropped" ELSE "ok")
